@@ -23,8 +23,8 @@ def _run_chunk(exe, cases, timeout):
     outs = [l[1:] for l in out.splitlines() if l.startswith('@')]
     return rc, outs, err
 
-def run_impl(cases, timeout=600):
-    exe = common.build_harness('ofdrv')
+def run_impl(cases, timeout=600, harness='ofdrv'):
+    exe = common.build_harness(harness)
     todo = list(cases)
     while todo:
         rc, outs, err = _run_chunk(exe, todo, timeout)
@@ -89,12 +89,12 @@ def compare(cases):
 
 model_error = None
 
-def run(cases, timeout=600):
+def run(cases, timeout=600, harness='ofdrv'):
     """run both sides; if the model cannot be built or run (e.g. a regenerated Gen/ file no longer fits), the
     implementation side and the direct oracles still run and `model_error` says why the model side is missing"""
     global model_error
     model_error = None
-    run_impl(cases, timeout)
+    run_impl(cases, timeout, harness)
     try:
         run_model(cases)
     except Exception as e:
